@@ -71,6 +71,7 @@ class Batch(object):
 
 
 SKIP = ("skip",)
+LONG = 4 * 3600      # TLC / replay timeouts: the machine may be heavily loaded (a timeout is a machinery error, never a verdict)
 
 
 def same(obs, exp):
